@@ -208,7 +208,7 @@ CLAIMED['C17'] = dict(
          'kinds (the Twisted protocols alone count sent messages and honour listen-only mode) the simulation all_frontends_agree / '
          'stream_frontends_agree_history: for data-access and identification requests every pair of front-ends writes byte-identical '
          'responses and leaves the same datastore, the worlds differing at most in the counters and the connections (CSim) at most in when they '
-         'read the unit list; same_kind_agree needs front-ends that read the unit list at the same point; framing_independent_of_store, '
+         'read the unit list; same_kind_agree needs front-ends that read the unit list at the same point; frontends_agree_any_chunking (any two stream front-ends, any two ways of cutting the request stream into reads: same bytes written, same datastore — C06, C09/C12 and C17 composed), framing_independent_of_store, '
          'mode_invariant. Each run gives the same datastore and request bytes to every real front-end and compares them with each other '
          'byte for byte (also from control blocks whose message counters stand at the 16-bit boundary), and interleaves 1..3 connections against the serial run of the frames in completion order.',
     design='6/C17', technique='Lean 4 proof of front-end equivalence (equality within a kind, simulation across kinds) + cross-implementation differential run',
